@@ -180,9 +180,14 @@ def _interval_arith(res):
         res.states += 1
         for s0 in scal + [0]:
             for s in _typed(s0):
-                ops = [("__mul__", lambda i, s=s: i * s, (F(a) * F(s), F(b) * F(s)))]
+                def _aug(i, s, op):
+                    # the augmented form (i *= s ...): whatever object the name is bound to afterwards is the image
+                    import operator
+                    return getattr(operator, op)(i, s)
+                ops = [("__mul__", lambda i, s=s: i * s, (F(a) * F(s), F(b) * F(s))), ("__imul__", lambda i, s=s: _aug(i, s, "imul"), (F(a) * F(s), F(b) * F(s)))]
                 if s0 != 0:
                     ops.append(("__truediv__", lambda i, s=s: i / s, (F(a) / F(s), F(b) / F(s))))
+                    ops.append(("__itruediv__", lambda i, s=s: _aug(i, s, "itruediv"), (F(a) / F(s), F(b) / F(s))))
                 for name, fn, (p, q) in ops:
                     lo, hi = min(p, q), max(p, q)
                     case = {"op": name, "a": a, "b": b, "s": s, "ts": _tn(s), "ta": _tn(a), "tb": _tn(b)}
@@ -200,7 +205,7 @@ def _interval_arith(res):
                     else:
                         # "the image set": the image of every point of the interval, computed the way a caller would (x * s, x / s), lies in the result
                         for x in (a, b, (a + b) / 2):
-                            img = x * s if name == "__mul__" else x / s
+                            img = x * s if name in ("__mul__", "__imul__") else x / s
                             if not (r.start <= img <= r.end):
                                 sign = "neg" if s0 < 0 else "pos"
                                 res.violation(f"C16|Interval.{name}|arg:{_tn(s)}|scalar:{sign}|image-of-a-point-outside-the-result",
@@ -209,8 +214,11 @@ def _interval_arith(res):
                     res.outcomes[name] += 1
         for s0 in A:
             for s in _typed(s0):
+                import operator as _op
                 for name, fn, (lo, hi) in (("__add__", lambda i, s=s: i + s, (F(a) + F(s), F(b) + F(s))),
-                                           ("__sub__", lambda i, s=s: i - s, (F(a) - F(s), F(b) - F(s)))):
+                                           ("__sub__", lambda i, s=s: i - s, (F(a) - F(s), F(b) - F(s))),
+                                           ("__iadd__", lambda i, s=s: _op.iadd(i, s), (F(a) + F(s), F(b) + F(s))),
+                                           ("__isub__", lambda i, s=s: _op.isub(i, s), (F(a) - F(s), F(b) - F(s)))):
                     case = {"op": name, "a": a, "b": b, "s": s, "ts": _tn(s)}
                     res.evals += 1; res.transitions += 1; res.nontrivial += 1
                     try:
@@ -456,7 +464,7 @@ def _angle_shift(res, g):
                 continue
             for k in range(-2 * g, 2 * g + 1):
                 sh = k * math.pi / g
-                for name, sgn in (("__add__", 1), ("__sub__", -1)):
+                for name, sgn in (("__add__", 1), ("__sub__", -1), ("__iadd__", 1), ("__isub__", -1)):
                     nst, nen = st + sgn * sh, en + sgn * sh
                     # shifts "keeping the result admissible": representable inside [-2pi, 2pi] after a 2pi-multiple move
                     if not any(-TWO_PI <= nst + j * TWO_PI and nen + j * TWO_PI <= TWO_PI for j in (-2, -1, 0, 1, 2)):
@@ -464,7 +472,11 @@ def _angle_shift(res, g):
                     case = {"op": "ashift", "st": st, "en": en, "shift": sh, "name": name}
                     res.evals += 1; res.transitions += 1; res.nontrivial += 1
                     try:
-                        r = ai + sh if sgn == 1 else ai - sh
+                        if name.startswith("__i"):
+                            import operator as _op
+                            r = (_op.iadd if sgn == 1 else _op.isub)(AngleInterval(st, en), sh)      # x += sh on an interval of its own
+                        else:
+                            r = ai + sh if sgn == 1 else ai - sh
                     except Exception as e:
                         res.violation(f"C16|AngleInterval.{name}|{_lenclass(st, en)}|raises:{type(e).__name__}",
                                       f"[{st},{en}] {name} {sh}: {e!r}", case)
